@@ -199,6 +199,10 @@ func (c *ctx) rapidStage(stage string, checks int64, prop func(rt *rapid.T)) {
 // evalCase runs a registered checker on a case inside a rapid property.
 func evalCase[T any](c *ctx, rt *rapid.T, kind string, cs T, check func(T) string) {
 	if msg := guard(func() string { return check(cs) }); msg != "" {
+		if id, detail, ok := splitKnown(msg); ok {
+			c.rec.Known(id, detail)
+			return
+		}
 		c.pend = &pending{kind, cs, msg}
 		rt.Fatalf("%s", msg)
 	}
@@ -208,6 +212,10 @@ func evalCase[T any](c *ctx, rt *rapid.T, kind string, cs T, check func(T) strin
 // stage should stop (too many violations).
 func evalEnum[T any](c *ctx, kind string, cs T, check func(T) string, nviol *int) bool {
 	if msg := guard(func() string { return check(cs) }); msg != "" {
+		if id, detail, ok := splitKnown(msg); ok {
+			c.rec.Known(id, detail)
+			return true
+		}
 		c.violation(kind, cs, msg)
 		*nviol++
 		return *nviol < maxEnumViolations
@@ -253,6 +261,10 @@ func TestReplay(t *testing.T) {
 			continue
 		}
 		c.rec.Bulk("replay", 1, 0, nil)
+		if id, detail, ok := splitKnown(msg); ok {
+			c.rec.Known(id, detail)
+			continue
+		}
 		if msg != "" {
 			c.rec.Violation(f, firstLines(msg, 6))
 			t.Errorf("VIOLATION %s replay=%s\n%s", rf.Property, f, msg)
